@@ -4,19 +4,19 @@ namespace XdsVerif.Decode
 open XdsVerif.Route
 
 /-- the matcher a header condition contributes, if it is *supported* (non-empty exact / prefix, non-empty compiling regex) -/
-def supported (compiles : String → Bool) (h : PHeader) : Option (String × Matcher) :=
+def supported (compiles : Oracles) (h : PHeader) : Option (String × Matcher) :=
   match h.spec with
   | .stringMatch (.exact s) => if s ≠ "" then some (h.name, .exact s) else none
   | .stringMatch (.pfx s) => if s ≠ "" then some (h.name, .pfx s) else none
-  | .stringMatch (.safeRegex (some r)) => if r ≠ "" ∧ compiles r then some (h.name, .regex r) else none
+  | .stringMatch (.safeRegex (some r)) => if r ≠ "" ∧ compiles.compiles r then some (h.name, .regex r) else none
   | _ => none
 
-def step (compiles : String → Bool) (m : Headers) (h : PHeader) : Headers :=
+def step (compiles : Oracles) (m : Headers) (h : PHeader) : Headers :=
   match supported compiles h with
   | some (k, v) => mapSet m k v
   | none => m
 
-theorem buildMatchers_eq_foldl (compiles : String → Bool) (hs : List PHeader) :
+theorem buildMatchers_eq_foldl (compiles : Oracles) (hs : List PHeader) :
     buildMatchers compiles hs = hs.foldl (step compiles) [] := by
   unfold buildMatchers
   congr 1
@@ -31,7 +31,7 @@ theorem buildMatchers_eq_foldl (compiles : String → Bool) (hs : List PHeader) 
     | safeRegex r =>
       cases r with
       | none => rfl
-      | some r => by_cases hr : r ≠ "" ∧ compiles r = true <;> simp [hr]
+      | some r => by_cases hr : r ≠ "" ∧ compiles.compiles r = true <;> simp [hr]
     | other => rfl
 
 theorem mapSet_fresh (m : Headers) (k : String) (v : Matcher) (h : ∀ e ∈ m, e.1 ≠ k) : mapSet m k v = m ++ [(k, v)] := by
@@ -40,7 +40,7 @@ theorem mapSet_fresh (m : Headers) (k : String) (v : Matcher) (h : ∀ e ∈ m, 
   intro e he; simp [h e he]
 
 /-- with pairwise distinct names among the supported conditions, `BuildMatchers` keeps every one of them, in order -/
-theorem foldl_step_nodup (compiles : String → Bool) (hs : List PHeader) (acc : Headers)
+theorem foldl_step_nodup (compiles : Oracles) (hs : List PHeader) (acc : Headers)
     (hd : ((acc ++ hs.filterMap (supported compiles)).map (·.1)).Nodup) :
     hs.foldl (step compiles) acc = acc ++ hs.filterMap (supported compiles) := by
   induction hs generalizing acc with
@@ -78,7 +78,7 @@ def routeWire (r : PRoute) : Bool :=
 
 def rcWire (c : PRouteConfiguration) : Bool := c.vhosts.all (fun v => v.routes.all routeWire)
 
-theorem decodeRoute_no_panic (F : DecodeFacts) (compiles : String → Bool) (r : PRoute) (h : routeWire r = true) :
+theorem decodeRoute_no_panic (F : DecodeFacts) (compiles : Oracles) (r : PRoute) (h : routeWire r = true) :
     decodeRoute F compiles r ≠ .panic := by
   unfold decodeRoute
   cases r.mtch with
@@ -100,7 +100,7 @@ theorem decodeRoute_no_panic (F : DecodeFacts) (compiles : String → Bool) (r :
         | none => rw [hs] at h; simp [clusterSpecWire] at h
         | some l => simp
 
-theorem decodeRoutes_no_panic (F : DecodeFacts) (compiles : String → Bool) (rs : List PRoute)
+theorem decodeRoutes_no_panic (F : DecodeFacts) (compiles : Oracles) (rs : List PRoute)
     (h : rs.all routeWire = true) : decodeRoutes F compiles rs ≠ .panic := by
   induction rs with
   | nil => simp [decodeRoutes]
@@ -119,7 +119,7 @@ theorem decodeRoutes_no_panic (F : DecodeFacts) (compiles : String → Bool) (rs
       | err e => simp
       | ok ds => simp
 
-theorem decodeVHosts_no_panic (F : DecodeFacts) (compiles : String → Bool) (vs : List PVirtualHost)
+theorem decodeVHosts_no_panic (F : DecodeFacts) (compiles : Oracles) (vs : List PVirtualHost)
     (h : vs.all (fun v => v.routes.all routeWire) = true) : decodeVHosts F compiles vs ≠ .panic := by
   induction vs with
   | nil => simp [decodeVHosts]
@@ -138,7 +138,7 @@ theorem decodeVHosts_no_panic (F : DecodeFacts) (compiles : String → Bool) (vs
       | err e => simp
       | ok ds => simp
 
-theorem decodeRouteConfig_no_panic (F : DecodeFacts) (compiles : String → Bool) (c : PRouteConfiguration)
+theorem decodeRouteConfig_no_panic (F : DecodeFacts) (compiles : Oracles) (c : PRouteConfiguration)
     (h : rcWire c = true) : decodeRouteConfig F compiles c ≠ .panic := by
   unfold decodeRouteConfig
   have := decodeVHosts_no_panic F compiles c.vhosts h
